@@ -203,3 +203,17 @@ Theorem C09_mapmv_dup_apply_nk (H : list (oprec (mop mvop))) :
   mvreach_nk H s K -> H !! i = Some r -> i ∈ K -> mapply mvreg_valops s (op_val r) = s.
 Proof. exact (mapmv_dup_apply_nk H). Qed.
 Print Assumptions C09_mapmv_dup_apply_nk.
+
+(** depth 3 without key removes: duplicate op and stale state absorbed (proofs/MapNKFunctorInst.v) *)
+From Crdt Require Import model.Orswot model.Map spec.System spec.OrswotSpec spec.OrswotSystem spec.MapSpec spec.MapSystem spec.MapOrswotSpec spec.MapMapOrswotSpec spec.MapMapOrswotNKSpec proofs.MapMapOrswotNK proofs.MapNKFunctor proofs.MapNKFunctorInst.
+Theorem C09_map3_nk_dup_apply (H : list (oprec (mop (mop (mop oop))))) :
+  m3hist_ok_nk H -> forall (s : cmap (cmap (cmap orswot))) (K : gset nat) (i : nat) (r : oprec (mop (mop (mop oop)))),
+  m3reach_nk H s K -> H !! i = Some r -> i ∈ K -> mapply (map_valops (map_valops orswot_valops)) s (op_val r) = s.
+Proof. exact (map3_dup_apply_nk H). Qed.
+Print Assumptions C09_map3_nk_dup_apply.
+
+Theorem C09_map3_nk_stale_merge (H : list (oprec (mop (mop (mop oop))))) :
+  m3hist_ok_nk H -> forall (s1 : cmap (cmap (cmap orswot))) (K1 : gset nat) (s2 : cmap (cmap (cmap orswot))) (K2 : gset nat),
+  m3reach_nk H s1 K1 -> m3reach_nk H s2 K2 -> K2 ⊆ K1 -> mmerge (map_valops (map_valops orswot_valops)) s1 s2 = s1 /\ mmerge (map_valops (map_valops orswot_valops)) s2 s1 = s1.
+Proof. exact (map3_stale_merge_nk H). Qed.
+Print Assumptions C09_map3_nk_stale_merge.
